@@ -20,7 +20,10 @@
       msg = has_wantlist <entries: <cid bytes> priority cancel wantType sendDontHave>
             <payload: as in kind 1> <presences: <cid bytes> type>):
         1 p                      a new inbound substream from peer p (replaces the old one)
-        2 p split msg            a complete frame (written in two pieces when split > 0)
+        2 p split msg            a complete frame (written in two pieces when split mod 1000 > 0;
+                                 split / 1000 = fields the loop must ignore: bit 0 a legacy `blocks`
+                                 entry, 1 pendingBytes, 2 `full`, 3 unknown fields, 4 the wantlist
+                                 as two `wantlist` fields, which protobuf merges)
         3 p kind cut msg         the substream ends badly: 0 frame that is not protobuf, 1 frame
                                  cut after `cut` bytes then closed, 2 length prefix above the
                                  limit, 3 clean close, 4 reset, 5 malformed length prefix
@@ -42,15 +45,17 @@
       trace:  4 nops { <events> <complete messages written> partial_bytes }*nops
               the entries of a written message are run-length encoded: count entry
    5  presence batching through the hooked functions:  5 max_message n { cidspec presence }*n
-      trace:  5 k { <ids> message_len <decoded: <cid bytes> type> }*k
+      trace:  5 k { <ids> message_len <decoded: <cid bytes> type> <the message's bytes> }*k
    6  request batching through the hooked functions (the loop of send_request):
                   6 max_message n { cidspec wantType }*n
       trace:  6 k { <ids> message_len <decoded entries: <cid bytes> priority cancel wantType
-                    sendDontHave> full }*k *)
+                    sendDontHave> full <the message's bytes> }*k
+   7  blocks_message on blocks given with their data:  7 n { cidspec <data bytes> }*n
+      trace:  7 <the message's bytes> (7 0 when there is no message: n = 0) *)
 From Coq Require Import List NArith Bool.
 From V.common Require Import Wire.
 From V.gen Require Consts.
-From V.C20 Require Import Model.
+From V.C20 Require Import Model Bytes.
 Import ListNotations.
 Open Scope N_scope.
 
@@ -250,7 +255,8 @@ Inductive case :=
 | CE2E (l : list sblock)
 | CNode (ops : list nop) (tab : list oentry)
 | CPres (mm : N) (l : list spres)
-| CWant (mm : N) (l : list (N * (cid * want_type))).
+| CWant (mm : N) (l : list (N * (cid * want_type)))
+| CBlocksMsg (l : list cblock).
 
 Definition decode_case (l : list N) : option case :=
   pall (let* kind := pN in
@@ -262,6 +268,7 @@ Definition decode_case (l : list N) : option case :=
         | 4 => let* ops := plist p_nop in pret (CNode (map fst ops) (flat_map snd ops))
         | 5 => let* mm := pN in let* ps := plist p_spres in pret (CPres mm (map mk_spres (number 0 ps)))
         | 6 => let* mm := pN in let* ws := plist p_want in pret (CWant mm (number 0 ws))
+        | 7 => let* bs := plist (let* c := p_cidspec in let* d := p_bytes in pret (c, d)) in pret (CBlocksMsg bs)
         | _ => pfail
         end) l.
 
@@ -378,7 +385,8 @@ Fixpoint run_node (tab : list oentry) (st : list pstate) (ops : list nop) : list
 Definition enc_pbatch (b : list spres) : list N :=
   enc_list (fun x => [sp_id x]) b ++
   [match b with [] => 0 | _ => message_len spres sp_elen blk_mlen b end] ++
-  enc_list (fun x => enc_bytes (cid_to_bytes (sp_cid x)) ++ [presence_code (sp_type x)]) b.
+  enc_list (fun x => enc_bytes (cid_to_bytes (sp_cid x)) ++ [presence_code (sp_type x)]) b ++
+  enc_bytes (match b with [] => [] | _ => presences_bytes b end).
 
 Definition run_pres (mm : N) (l : list spres) : list N :=
   enc_list enc_pbatch (all_batches spres (fun _ => 0) sp_elen blk_mlen 0 mm l).
@@ -393,7 +401,7 @@ Definition enc_want_entry (x : N * (cid * want_type)) : list N :=
 Definition enc_wbatch (b : list (N * (cid * want_type))) : list N :=
   enc_list (fun x => [fst x]) b ++
   [message_len (N * (cid * want_type)) iw_elen req_mlen b] ++
-  enc_list enc_want_entry b ++ [0].
+  enc_list enc_want_entry b ++ [0] ++ enc_bytes (request_bytes (map snd b)).
 
 Definition run_wants (mm : N) (l : list (N * (cid * want_type))) : list N :=
   enc_list enc_wbatch
@@ -408,6 +416,7 @@ Definition run_case (l : list N) : list N :=
       4 :: N.of_nat (length ops) :: run_node tab [ps_init; ps_init; ps_init] ops
   | Some (CPres mm l) => 5 :: run_pres mm l
   | Some (CWant mm l) => 6 :: run_wants mm l
+  | Some (CBlocksMsg l) => 7 :: enc_bytes (match l with [] => [] | _ => blocks_bytes l end)
   | None => [0]
   end.
 
@@ -721,12 +730,16 @@ Fixpoint node_ok (tab : list oentry) (st : list pstate) (con inb : list bool) (o
   | _, _ => false
   end.
 
-Record opbatch := mkOPB { opb_ids : list N; opb_len : N; opb_entries : list (list N * N) }.
+Record opbatch := mkOPB { opb_ids : list N; opb_len : N; opb_entries : list (list N * N); opb_raw : list N }.
 
 Definition p_opbatch : parser opbatch :=
   let* ids := plist pN in let* len := pN in
   let* es := plist (let* b := plist pN in let* t := pN in pret (b, t)) in
-  pret (mkOPB ids len es).
+  let* raw := plist pN in
+  pret (mkOPB ids len es raw).
+
+Definition pick {X} (l : list X) (ids : list N) : list X :=
+  flat_map (fun i => match nth_error l (N.to_nat i) with Some x => [x] | None => [] end) ids.
 
 Definition find_sp (l : list spres) (i : N) : option spres := nth_error l (N.to_nat i).
 
@@ -744,13 +757,18 @@ Fixpoint pentries_ok (l : list spres) (ids : list N) (es : list (list N * N)) : 
 
 Definition pbatch_ok (mm : N) (l : list spres) (b : opbatch) : bool :=
   negb (match opb_ids b with [] => true | _ => false end) &&
-  (1 <=? opb_len b) && (opb_len b <=? mm) && pentries_ok l (opb_ids b) (opb_entries b).
+  (1 <=? opb_len b) && (opb_len b <=? mm) && pentries_ok l (opb_ids b) (opb_entries b) &&
+  (* the bytes on the wire: as long as announced, and the canonical encoding of the batch *)
+  (N.of_nat (length (opb_raw b)) =? opb_len b) &&
+  nlist_eqb (opb_raw b) (presences_bytes (pick l (opb_ids b))).
 
-Record owbatch := mkOWB { owb_ids : list N; owb_len : N; owb_entries : list wl_entry; owb_full : N }.
+Record owbatch := mkOWB { owb_ids : list N; owb_len : N; owb_entries : list wl_entry; owb_full : N;
+                          owb_raw : list N }.
 
 Definition p_owbatch : parser owbatch :=
   let* ids := plist pN in let* len := pN in let* es := plist p_wl_entry in let* full := pN in
-  pret (mkOWB ids len es full).
+  let* raw := plist pN in
+  pret (mkOWB ids len es full raw).
 
 Fixpoint wentries_ok (l : list (N * (cid * want_type))) (ids : list N) (es : list wl_entry) : bool :=
   match ids, es with
@@ -770,7 +788,9 @@ Fixpoint wentries_ok (l : list (N * (cid * want_type))) (ids : list N) (es : lis
    decodes to exactly the wants of the batch, in order *)
 Definition wbatch_ok (mm : N) (l : list (N * (cid * want_type))) (b : owbatch) : bool :=
   (match owb_ids b with [] => true | _ => (1 <=? owb_len b) && (owb_len b <=? mm) end) &&
-  (owb_full b =? 0) && wentries_ok l (owb_ids b) (owb_entries b).
+  (owb_full b =? 0) && wentries_ok l (owb_ids b) (owb_entries b) &&
+  (N.of_nat (length (owb_raw b)) =? owb_len b) &&
+  nlist_eqb (owb_raw b) (request_bytes (map snd (pick l (owb_ids b)))).
 
 Definition prop_ok (case trace : list N) : bool :=
   match decode_case case, trace with
@@ -822,6 +842,17 @@ Definition prop_ok (case trace : list N) : bool :=
           nlist_eqb (concat (map owb_ids obs))
                     (map fst (filter (fits (N * (cid * want_type)) (fun _ => 0) iw_elen req_mlen 0 mm) l)) &&
           forallb (wbatch_ok mm l) obs
+      | None => false
+      end
+  | Some (CBlocksMsg l), 7 :: body =>
+      match pall (plist pN) body with
+      | Some raw =>
+          (* the message is the canonical encoding: as long as the sizes say, carrying the blocks *)
+          nlist_eqb raw (match l with [] => [] | _ => blocks_bytes l end) &&
+          match l with
+          | [] => true
+          | _ => N.of_nat (length raw) =? message_len cblock cb_elen blk_mlen l
+          end
       | None => false
       end
   | None, [0] => true
